@@ -344,6 +344,7 @@ class PeriodicMessageTask:
         new_data = bytearray(data)
         old_data = self.msg.data
         self.msg.data = new_data
+        self.msg.dlc = len(new_data)
         if hasattr(self._task, "modify_data"):
             self._task.modify_data(self.msg)
         elif new_data != old_data:
